@@ -1456,7 +1456,7 @@ Proof.
   intros Hnil Hf Ht Hper Hch Hrun Hout.
   destruct (result_shape _ _ _ _ _ _ _ _ _ Hnil ltac:(lia) Ht Hper Hout) as (_ & _ & Hh & _).
   destruct (get_range_fresh maxcap per from to peers) as [Hc0 Hr0].
-  assert (HCI : CI c (get_range maxcap per from to peers)).
+  assert (HCI : CI c top (get_range maxcap per from to peers)).
   { split; [rewrite Hc0; constructor|]. intros l Hl. exfalso. exact (Hr0 l Hl). }
   pose proof (run_chain drift tv maxcap from c top Hnil Hch evs _ HCI Hrun) as [_ Hfin].
   unfold GetRangeByHeight in Hout. specialize (Hfin res Hout).
